@@ -100,6 +100,31 @@ class P(framework.Prop):
                 line = "search %s %s" % (wire.s(k), wire.val({k: 1, a: 2, a + b: 3}))
                 self.expect[line] = "OK u1"
                 out.append(line)
+        # line endings and neighbouring control characters are ordinary content: CR LF, lone CR, LF CR, tabs, NEL, LS/PS, BOM, NUL
+        for body in ["a\r\nb", "\r\n", "a\rb", "a\n\rb", "\r\r\n\n", "a\tb", "a\x0bb", "a\x0cb", "a\u0085b", "a\u2028b\u2029c", "\ufeffa", "a\x00b", " a ", "\n", "x\r\n\r\ny",
+                     "line1\r\nline2\r\n", "a\u00a0b", "a\u200bb", "e\u0301", "\u00e9"]:
+            e = "'" + body + "'"
+            line = "search %s n" % wire.s(e)
+            self.expect[line] = "OK " + wire.val(body)
+            out.append(line)
+            line = "search %s %s" % (wire.s("@ == " + e), wire.val(body))
+            self.expect[line] = "OK t"
+            out.append(line)
+            line = "search %s %s" % (wire.s("length(" + e + ")"), "n")
+            self.expect[line] = "OK " + wire.val(len(body))
+            out.append(line)
+            q = json.dumps(body, ensure_ascii=False)
+            if all(ord(ch) >= 32 for ch in body):
+                line = "search %s %s" % (wire.s(q), wire.val({body: 1, body + "x": 2}))
+                self.expect[line] = "OK u1"
+                out.append(line)
+            lit = "`" + json.dumps(body) + "`"
+            line = "search %s n" % wire.s(lit)
+            self.expect[line] = "OK " + wire.val(body)
+            out.append(line)
+            line = "search %s n" % wire.s(lit + " == " + e)
+            self.expect[line] = "OK t"
+            out.append(line)
         # names that other languages reserve are plain identifiers here: they select the member of that name, in every position
         words = ["true", "false", "null", "nan", "NaN", "inf", "Infinity", "undefined", "and", "or", "not", "in", "if", "else", "e", "E", "_", "__", "x0",
                  "True", "False", "None", "nil", "this", "self", "length", "sort_by", "map", "type", "to_number", "abs", "u0041", "n", "t", "r"]
